@@ -87,7 +87,7 @@ func (f *readFile) filterLineWithLContext(ctx context.Context, ltx *lcontext.LCo
 
 	f.updatePosition()
 
-	if !re.Match(rawLine.Bytes()) {
+	if !matchLine(*re, rawLine) {
 		f.updateLineNotMatched()
 		status := f.lContextNotMatched(ctx, ls, lines, rawLine)
 		switch status {
